@@ -197,9 +197,13 @@ class C16(Check):
                     v.violate("C16", f"export_exception/{op}", [ev["exc"].split(":")[0]], ev["exc"], ev["seq"], "A")
                 continue
             if hit:
-                # the op reported success although an injected fault fired on its file
+                # an injected fault fired on this op's file and the op did not raise: legal only
+                # if it reported failure through a falsy return value (to_json_file)
                 content = result["fs_files"].get(path, "")
-                v.violate("C16", "io_fault_reported_success", [op], {"path": path, "returned": ev.get("returned"), "len": len(content)}, ev["seq"], "A")
+                if op == "to_json_file" and "returned" in ev and not ev["returned"]:
+                    v.probe("io_fault_reported_by_return_value")
+                else:
+                    v.violate("C16", "io_fault_reported_success", [op], {"path": path, "returned": ev.get("returned"), "len": len(content)}, ev["seq"], "A")
                 continue
             exported += 1
             if op == "to_json" and sol is not None:
@@ -383,7 +387,7 @@ class C16(Check):
                 if res.get(cell) != task:
                     other = res.get(cell)
                     zl = any(tk == other and ee == ss and ss == s for tk, ss, ee in r["assignments"])
-                    conc = (not zl) and any(tk == other and ss < e and s < ee for tk, ss, ee in r["assignments"])
+                    conc = (not zl) and any(tk != task and ss < e and s < ee for tk, ss, ee in r["assignments"])
                     why = "(overwritten by a zero-length assignment)" if zl else "(concurrent tasks of a cumulative worker share one row)" if conc else ""
                     bad("resource.assignment" + why, [rname, task, s, e, cell, other])
                 if e - s > 1:
